@@ -40,6 +40,33 @@ impl Enc for usize {
     }
 }
 
+/// A seekable source whose `seek` fails while `FAIL_SEEK` is set (the executor
+/// sets it for the duration of a `rewind` op that carries `"fail": true`): a
+/// source that "cannot be rewound".
+static FAIL_SEEK: std::sync::atomic::AtomicBool = std::sync::atomic::AtomicBool::new(false);
+struct Flaky<R>(R);
+impl<R: std::io::Read> std::io::Read for Flaky<R> {
+    fn read(&mut self, buf: &mut [u8]) -> std::io::Result<usize> {
+        self.0.read(buf)
+    }
+}
+impl<R: std::io::BufRead> std::io::BufRead for Flaky<R> {
+    fn fill_buf(&mut self) -> std::io::Result<&[u8]> {
+        self.0.fill_buf()
+    }
+    fn consume(&mut self, amt: usize) {
+        self.0.consume(amt)
+    }
+}
+impl<R: std::io::Seek> std::io::Seek for Flaky<R> {
+    fn seek(&mut self, pos: std::io::SeekFrom) -> std::io::Result<u64> {
+        if FAIL_SEEK.load(std::sync::atomic::Ordering::SeqCst) {
+            return Err(std::io::Error::other("injected seek failure"));
+        }
+        self.0.seek(pos)
+    }
+}
+
 enum Step {
     None,
     Item(Value),
@@ -153,6 +180,10 @@ fn open(ep: &Value) -> anyhow::Result<(Box<dyn DynL>, Option<tempfile::NamedTemp
     let path = tmp.as_ref().map(|f| f.path().to_path_buf());
     let l: Box<dyn DynL> = match kind {
         "line_cursor" => wrap::<str, _>(LineLender::new(Cursor::new(payload)), &take),
+        // the same three kinds over a source whose seek can be made to fail
+        "line_flaky" => wrap::<str, _>(LineLender::new(Flaky(Cursor::new(payload))), &take),
+        "zstd_flaky" => wrap::<str, _>(ZstdLineLender::new(Flaky(Cursor::new(payload)))?, &take),
+        "gzip_flaky" => wrap::<str, _>(GzipLineLender::new(Flaky(Cursor::new(payload)))?, &take),
         "line_buf" => {
             let cap = ep.get("cap").and_then(|v| v.as_u64()).unwrap_or(8192) as usize;
             wrap::<str, _>(LineLender::new(BufReader::with_capacity(cap.max(1), Cursor::new(payload))), &take)
@@ -259,7 +290,13 @@ pub fn run(ep: &Value, ctx: &mut Ctx) {
                 None => Err("na".into()),
             },
             "rewind" => match l.take() {
-                Some(x) => match guard(|| x.rew()) {
+                Some(x) => match {
+                    let fail = op.get("fail").and_then(|v| v.as_bool()).unwrap_or(false);
+                    FAIL_SEEK.store(fail, std::sync::atomic::Ordering::SeqCst);
+                    let r = guard(|| x.rew());
+                    FAIL_SEEK.store(false, std::sync::atomic::Ordering::SeqCst);
+                    r
+                } {
                     Ok(Ok(y)) => {
                         l = Some(y);
                         if yielded > 0 {
